@@ -47,7 +47,7 @@ class Prop(PropBase):
     kernels = []
     vo_targets = ['Props/Properties_C17.vo', 'Proofs/Instances.vo']
     prop_files = ['Props/Properties_C17.v']
-    harness_variants = ['asan', 'tsan']
+    harness_variants = ['asan', 'tsan', 'plain']
     rule = ('2..4 real LidarDriver instances in one process (all 17 types over the runs; always: the same type twice, Bpearl v3 + v4, Ruby Plus 80 + 80v, 16-beam single + dual return, mechanical + MEMS), '
             'each with its own random configuration and DIFOP/MSOP stream incl. malformed packets; random sequential interleavings of the packets, late creation, destruction and re-creation of instances in between; '
             'every instance\'s clouds, buffer requests, packet records, getter results compared (a) with the same instance run alone in a fresh process and (b) with the model; '
@@ -60,6 +60,8 @@ class Prop(PropBase):
     mismatch_is_violation = True
 
     def variant_for(self, bname):
+        if bname == 'recreate':
+            return 'plain'       # the real allocator: a destroyed instance's heap block is handed to the next one
         return 'tsan' if bname.startswith('par') else 'asan'
 
     def combos(self, rng, tier):
@@ -150,6 +152,18 @@ class Prop(PropBase):
                 self.solo_of[(name, k)] = sn
         out.append(('seq', '\n'.join(seq) + '\n'))
         out.append(('solo', '\n'.join(solo) + '\n'))
+        # an instance is created, fed and destroyed, and an instance of the same type is created in its place and fed the same
+        # stream (same rpm, return mode, variant): on a build without sanitizers the new object reuses the old one's memory, and
+        # its output must still be that of a fresh instance (the model has no heap)
+        rec = []
+        for k, t in enumerate(scen.MECH + ['RSM1', 'RSMX'] if tier != 'quick' else rng.sample(scen.MECH, 4) + ['RS32', 'RSM1']):
+            cfg = scen.rand_cfg(rng, dense=0, lclock=1, pktcb=rng.randrange(2), wait=1, mode=rng.choice([1, 2, 2]))
+            kw = dict(rpm=rng.choice([300, 1200, 2400]), difop_at=0, malformed_p=0.0, dual=bool(k % 2)) if self.L[t].mech else {}
+            body = scen.mixed_scenario(rng, self.L, t, 'x', cfg, npk=4, **kw).split('\n')[1:-1]
+            other = scen.mixed_scenario(rng, self.L, t, 'x', scen.rand_cfg(rng, dense=1, lclock=1, pktcb=0, wait=0), npk=rng.choice([0, 1, 3]), **kw).split('\n')[1:-1]
+            first = body if k % 2 == 0 else other       # the predecessor is the same stream, or another one with the same rpm
+            rec.append('\n'.join([f'S c17_recreate_{t}_{k}'] + first + ['Z 0'] + body + ['E']))
+        out.append(('recreate', '\n'.join(rec) + '\n'))
         # concurrent feeding under TSan
         par = []
         pcombos = [('RSBP', 'RSBP'), ('RSP80', 'RSP80'), ('RS16', 'RS16'), ('RS128', 'RSM1'), ('RSHELIOS', 'RSHELIOS', 'RSE1')]
